@@ -7,6 +7,8 @@ def sh(cmd, **kw):
     subprocess.check_call(cmd, shell=True, **kw)
 # E3 front end (LLVM-14 API)
 sh("clang++-14 $(llvm-config-14 --cxxflags) -O1 -fexceptions engines/ir2c/ir2c.cpp -o engines/ir2c/ir2c $(llvm-config-14 --ldflags) -lLLVM-14", cwd=HERE)
+# E4 symbolic IR interpreter
+sh("clang++-14 $(llvm-config-14 --cxxflags) -fexceptions -O2 -Iengines/irx engines/irx/irx.cpp -o engines/irx/irx $(llvm-config-14 --ldflags) -lLLVM-14 -lz3", cwd=HERE)
 # E2 translator self-tests
 sh("bash engines/f2x/tests/run_tests.sh > /dev/null", cwd=HERE)
 # E1 engine compiles
